@@ -60,6 +60,11 @@ pub fn alphabet(full: bool) -> Vec<Op> {
 }
 
 fn sequences(alpha: &[Op], depth: usize) -> Vec<Vec<Op>> {
+    sequences_behind(alpha, depth, false)
+}
+
+/// `behind_prefix`: the sequences continue a non-empty history, so a leading reopen is meaningful.
+fn sequences_behind(alpha: &[Op], depth: usize, behind_prefix: bool) -> Vec<Vec<Op>> {
     let mut out: Vec<Vec<Op>> = Vec::new();
     let mut level: Vec<Vec<Op>> = vec![vec![]];
     for _ in 0..depth {
@@ -67,7 +72,7 @@ fn sequences(alpha: &[Op], depth: usize) -> Vec<Vec<Op>> {
         for h in &level {
             for a in alpha {
                 // a leading or doubled reopen adds nothing
-                if matches!(a, Op::Reopen) && matches!(h.last(), None | Some(Op::Reopen)) {
+                if matches!(a, Op::Reopen) && (matches!(h.last(), Some(Op::Reopen)) || (h.is_empty() && !behind_prefix)) {
                     continue;
                 }
                 let mut n = h.clone();
@@ -122,7 +127,7 @@ pub fn cases(tier: Tier) -> Vec<Case> {
         (vec![DbCfg::simple(MIN_SEG, true, deferred), DbCfg::simple(MIN_SEG, false, SyncMode::EveryWrite)], 3)
     };
     for cfg in cfgs {
-        for suffix in sequences(&alphabet(false), depth) {
+        for suffix in sequences_behind(&alphabet(false), depth, true) {
             if suffix.len() < 2 {
                 continue;
             }
@@ -143,7 +148,7 @@ pub fn cases(tier: Tier) -> Vec<Case> {
         vec![DbCfg::simple(MIN_SEG, true, SyncMode::EveryWrite)]
     };
     for cfg in cfgs2 {
-        for suffix in sequences(&alphabet(false), if tier.is_thorough() { 3 } else { 2 }) {
+        for suffix in sequences_behind(&alphabet(false), if tier.is_thorough() { 3 } else { 2 }, true) {
             let mut ops = two_rollovers.clone();
             ops.extend(suffix);
             pre.push(Case { cfg: cfg.clone(), ops });
